@@ -36,8 +36,8 @@ REPO = os.environ.get('PYTENET_PATH', '/repo')
 MAP = {
     'bond_ops': ('test_bond_ops.py', ['C11', 'C12', 'C01', 'C13', 'C03']),
     'qnumber': ('test_mps.py', ['C02', 'C03', 'C01', 'C04']),
-    'mps': ('test_mps.py', ['C01', 'C02', 'C03', 'C04', 'C13', 'C19']),
-    'mpo': ('test_mpo.py', ['C01', 'C02', 'C03', 'C05', 'C19', 'C07']),
+    'mps': ('test_mps.py', ['C01', 'C02', 'C03', 'C04', 'C13', 'C12', 'C19']),
+    'mpo': ('test_mpo.py', ['C01', 'C02', 'C03', 'C05', 'C12', 'C19', 'C07']),
     'operation': ('test_operation.py', ['C04', 'C03', 'C08', 'C10', 'C02']),
     'opchain': ('test_opchain.py', ['C05', 'C19', 'C20']),
     'opgraph': ('test_opgraph.py', ['C05', 'C16', 'C17', 'C20', 'C19']),
